@@ -103,6 +103,12 @@ func runBehaviour(b *Behaviour, opts *MatOpts, src string, onCall func(k int, c 
 		if c.Op != "fault" {
 			tr.before(session)
 		}
+		var resumedRun flows.RunUUID
+		if c.Op == "resume" && session != nil {
+			if w := waitingRun(session); w != nil {
+				resumedRun = w.UUID()
+			}
+		}
 		switch c.Op {
 		case "start":
 			trig, err := readTrigger(sa, matTrigger(b, c.Choice, opts.FlowType))
@@ -194,6 +200,14 @@ func runBehaviour(b *Behaviour, opts *MatOpts, src string, onCall func(k int, c 
 		line.Panic = pan
 		line.Impossible = impossible
 		line.Generated = true
+		if opts.InspectW != nil && session != nil && pan == "" && cerr == nil && !faulted {
+			if opts.insp == nil {
+				opts.insp = newInspector()
+			}
+			for _, il := range opts.insp.lines(fmt.Sprintf("%s/%d", src, k), sa, session, tr, resumedRun) {
+				opts.InspectW.write(il.Src, il, func(v string) { il.Src = v })
+			}
+		}
 		onCall(k, c, line, session, sprint)
 		k++
 		if session == nil || pan != "" {
@@ -239,6 +253,7 @@ func engReplay(args []string) error {
 	shard := fs.Int("shard", 0, "")
 	nshards := fs.Int("nshards", 1, "")
 	statsPath := fs.String("stats", "", "stats json output")
+	iout := fs.String("inspect", "", "also write the inspection trace (C20) here")
 	fs.Parse(args)
 
 	lw, f, err := newLineWriter(*out)
@@ -247,12 +262,22 @@ func engReplay(args []string) error {
 	}
 	defer f.Close()
 	st := &replayStats{}
-	opts := &MatOpts{}
+	opts := &MatOpts{ResultNames: true}
+	if *iout != "" {
+		iw, f2, err := newLineWriter(*iout)
+		if err != nil {
+			return err
+		}
+		defer f2.Close()
+		defer func() { iw.w.Flush() }()
+		opts.InspectW = iw
+	}
 	err = forEachLine(*in, *shard, *nshards, func(i int, data []byte) error {
 		b := &Behaviour{}
 		if err := json.Unmarshal(data, b); err != nil {
 			return fmt.Errorf("line %d: %w", i, err)
 		}
+		opts.insp = nil // definitions differ per behaviour
 		st.Behaviours++
 		src := fmt.Sprintf("%s#%d", *in, i)
 		nwaits := 0
